@@ -1,7 +1,6 @@
 ------------------------------ MODULE MC_Scope ------------------------------
 EXTENDS Scope
-CONSTANTS MaxNodes
-Keys == {"a", "b"}
+CONSTANTS MaxNodes, Keys
 Vals == {"1", "2"}
 Locs == UNION {[S -> Vals] : S \in SUBSET Keys}
 Kinds == {"ns", "class", "block", "func"}
